@@ -484,7 +484,56 @@ def mon_c06(tr, upper=True):
                 bound = E + (10 if changed else 2)
                 if upper and t - t0 > bound and regular(tr, i0, i):
                     out.append(("expiry:late", "hold of request %d (expiry %ds%s) ended after %ds" % (rp["req"], E, ", set by re-lock/update" if changed else "", t - t0), i))
+    # "is ended no later than ...", while it happens: after an expiry sweep of a regular (one tick, both sweeps) stretch of
+    # at least 14 ticks, no hold may be more than 12 s past its deadline
+    adv_idx = [j for j, st_ in enumerate(tr.steps) if st_["line"].startswith("adv ")]
+    seen_over = set()
+    for i, st in enumerate(tr.steps):
+        if not upper or st["line"] != "sweepe" or not st["after"] or st["panic"]:
+            continue
+        prev = [j for j in adv_idx if j < i][-14:]
+        if len(prev) < 14 or not regular(tr, prev[0], i) or not leader_at(tr, i):
+            continue
+        s_ = st["after"]
+        if s_.get("uafw", 0) > 0 or any((h and h.get("freed")) for k in s_["keys"].values() for h in [k.get("cur")] + k["holders"] + k["waiters"]):
+            break
+        for k in s_["keys"].values():
+            for h in live_holders(k):
+                if h["ack"] == 255 and 0 < h["eT"] < s_["now"] - 12 and h["eT"] < 2 ** 62 and h["req"] not in seen_over:
+                    seen_over.add(h["req"])
+                    out.append(("expiry:never-ended", "the hold of request %d on key %d (deadline %d) is still held %d s after its deadline although the expiry sweeper ran every second"
+                                % (h["req"], k["key"], h["eT"], s_["now"] - h["eT"]), i))
+    # "is ended no later than ...": a hold with a finite deadline must not survive the drain phase (which lets every
+    # deadline pass by minutes, sweeping every second): a hold whose deadline lies more than 60 s behind the final clock
+    # and is still held was forgotten by the sweeper
+    last = tr.steps[-1]["after"] if tr.steps else None
+    if upper and last and not any(s_["panic"] for s_ in tr.steps) and not ack_pending_at_end(tr) and leader_at_end(tr):
+        corrupt = last.get("uafw", 0) > 0 or any((h and h.get("freed")) for k in last["keys"].values() for h in [k.get("cur")] + k["holders"] + k["waiters"])
+        for k in ([] if corrupt else last["keys"].values()):
+            for h in live_holders(k):
+                if h["ack"] == 255 and 0 < h["eT"] < last["now"] - 60 and h["eT"] < 2 ** 62:
+                    out.append(("expiry:never-ended", "the hold of request %d on key %d (deadline %d) is still held %d s after its deadline, at the end of the drain phase"
+                                % (h["req"], k["key"], h["eT"], last["now"] - h["eT"]), len(tr.steps) - 1))
     return out
+
+
+def leader_at(tr, i):
+    role = 1
+    for st in tr.steps[:i + 1]:
+        f = st["line"].split()
+        if f[0] == "role":
+            role = int(f[1])
+    return role == 1
+
+
+def leader_at_end(tr):
+    """the last role action of the history made the node leader (the drain phase does so; followers keep replicated holds)"""
+    role = 1
+    for st in tr.steps:
+        f = st["line"].split()
+        if f[0] == "role":
+            role = int(f[1])
+    return role == 1
 
 
 def ack_pending_at_end(tr):
